@@ -711,3 +711,5 @@ PROPS["C16"]["rule"] += " With a ticking clock the later options of a wildcard s
 
 PROPS["C19"]["rule"] += " The concurrent (race-build) run also looks at what its subscribers were given: only changes inside their mask, only changes that were notified, never more than 8 buffered."
 PROPS["C13"]["rule"] += " OS part: what the addresser returns is compared with the kernel's listing as a multiset (nothing obliges it to keep the kernel's order)."
+
+PROPS["C10"]["rule"] += " After a recoverable fault the re-dialled connection must be used (an advertiser sends its initial RA on it, unless the stop came first); a fatal fault of the 'other' kind must be named by the error Run returns."
